@@ -1,5 +1,6 @@
 import NumbatModel.Lemmas.SyntaxFuel
 import NumbatModel.Lemmas.SyntaxSound
+import NumbatModel.Lemmas.SyntaxLex
 /-!
 # C10 — parsing follows the documented grammar and precedence table (property theorems)
 
@@ -14,6 +15,8 @@ where the precedence table `infixTable`/`…Level` demands them), `toExpr` (the 
   this fixes precedence and associativity of every pair of constructs at once.
 * `parse_render_expr` — the same for plain ASTs (`ofExpr`), i.e. `parse (render e) = ok e`.
 * `parse_extra_parens` — texts that differ only in redundant parentheses parse to the same tree.
+* `tokenize_unlex_partial`, `operatorChars_not_identifier_continue`, `parse_text_partial` — the lexer lemma
+  (partial, see there).
 * `parse_sound`, `parse_sound_top` — whatever the parser accepts is a sentence of the documented BNF
   (`Derives`, Model/SyntaxGrammar.lean) and the returned tree is the tree of that derivation: nothing outside
   the grammar is accepted or reinterpreted (newline-free token lists; the BNF does not mention the newlines the
@@ -72,6 +75,29 @@ theorem parse_sound_top (ts : List Token) (e : Expr) (hnl : ∀ t ∈ ts, t.kind
       exact ⟨pre, rest, hpre, by simpa using heof, hd⟩
     · cases h
 
+/-- **Lexer lemma (partial).**  Writing tokens as their lexemes separated by single blanks and tokenizing the
+text gives the tokens back, for every list of *simple* tokens: all spellings (ASCII and Unicode) of all
+operator, bracket and keyword tokens of the expression grammar, ASCII identifiers that are not keywords, and
+decimal integer literals; for every XID table.  Missing for the full `tokenize_unlex`: blanks only where two
+lexemes would fuse, non-ASCII identifiers, the other number notations, strings, `{`/`}` (scope tracking) and `.`. -/
+theorem tokenize_unlex_partial (xt : XidTable) (ts : List Token) (h : ∀ t ∈ ts, simpleTok t = true) :
+    tokenize xt (unlexBlank ts) = .ok (ts ++ [tEof]) :=
+  scanAll_unlex xt ts none _ h (Nat.le_refl _)
+
+/-- No character operators are made of is an identifier-continue character for numbat's tokenizer (given that
+`unicode-ident` does not classify it as XID_Continue) — what `tokenize_unlex` without blanks rests on, and the
+statement the historical subscript-range typo `0x2080..=0x209CF` violated for `→ − ≤ ≥ ≠ ➞ ⩵`. -/
+theorem operatorChars_not_identifier_continue (xt : XidTable) (c : Char) (hc : c ∈ operatorChars)
+    (hx : c.toNat ∉ xt.cont) : isIdentifierContinue xt c = false :=
+  operatorChars_not_continue xt c hc hx
+
+/-- From text to tree: for a well-formed surface tree whose tokens are simple, tokenizing the blank-separated
+text of its rendering and parsing the tokens gives the documented tree. -/
+theorem parse_text_partial (xt : XidTable) (s : Surf) (h : s.wf = true) (hs : ∀ t ∈ render s, simpleTok t = true) :
+    tokenize xt (unlexBlank (render s)) = .ok (render s ++ [tEof]) ∧
+    parseExpr (render s ++ [tEof]) = .ok (toExpr s) :=
+  ⟨tokenize_unlex_partial xt (render s) hs, parse_render s h⟩
+
 /-! ## non-vacuity: the examples of the property text, as instances -/
 
 section Examples
@@ -117,6 +143,13 @@ example : ∃ pre, render (.bin .plus ['+'] x (.bin .multiply ['*'] y z)) ++ [tE
     Derives 0 pre (.bin .add (.ident ['x']) (.bin .mul (.ident ['y']) (.ident ['z']))) :=
   parse_sound _ _ _ _ (by decide)
     (parse_render_context (.bin .plus ['+'] x (.bin .multiply ['*'] y z)) (by decide) [tEof] (by decide) _ (Nat.le_refl _))
+/-- the text `- x ^ 2` lexes to the four tokens and parses to `-(x^2)`; `→` is not an identifier-continue character -/
+example : unlexBlank (render (.neg ['-'] (.pow ['^'] x two))) = ['-', ' ', 'x', ' ', '^', ' ', '2'] ∧
+    tokenize ⟨[], []⟩ ['-', ' ', 'x', ' ', '^', ' ', '2'] =
+      .ok [⟨.minus, ['-']⟩, ⟨.identifier, ['x']⟩, ⟨.power, ['^']⟩, ⟨.number, ['2']⟩, tEof] ∧
+    isIdentifierContinue ⟨[], []⟩ '→' = false :=
+  ⟨by decide, (parse_text_partial ⟨[], []⟩ (.neg ['-'] (.pow ['^'] x two)) (by decide) (by decide)).1,
+   operatorChars_not_identifier_continue _ _ (by decide) (by decide)⟩
 end Examples
 
 end NumbatModel.Syntax
